@@ -27,7 +27,11 @@ def step (st : St) (l : String) : St × Option String :=
     let vs := a.toNat!; let d := b.toNat!
     let ok := !(vs = 0 ∨ vs > 255 - Generated.hashSize ∨ d = 0)
     ({ vs := vs, declared := d, newOk := ok }, some (if ok then "ok" else "err"))
-  | ["meta", k, v] => if !st.newOk then (st, some "nobuilder") else ({ st with mta := st.mta.push (unhex k, unhex v) }, some "ok")
+  | ["meta", k, v] =>
+    if !st.newOk then (st, some "nobuilder")
+    -- indexmeta.Meta.Add: at most MaxNumKVs pairs, keys and values at most MaxKeySize / MaxValueSize bytes
+    else if st.mta.size ≥ Generated.metaMaxNumKVs ∨ (unhex k).length > Generated.metaMaxKeySize ∨ (unhex v).length > Generated.metaMaxValueSize then (st, some "err")
+    else ({ st with mta := st.mta.push (unhex k, unhex v) }, some "ok")
   | ["ins", k, v] =>
     if !st.newOk then (st, some "nobuilder") else
     let key := unhex k
